@@ -48,20 +48,19 @@ theorem handle_samekind (c1 c2 : Cfg) (h1 : Common c1) (h2 : Common c2) (hi : c1
       simp only [handleEvents, callback_common c1 c2 h1 h2 hi, frameResp_common c1 c2 hf, hc, ih]
 
 /-- the end of `connStep`: what becomes of the connection -/
-def finish (fe : Frontend) (conn : Conn) (buf' : Bytes) : Option PyErr → Conn
-  | none => { conn with buf := if fe = .syncUdp then [] else buf' }
-  | some _ => match fe with
+def finish (cfg : Cfg) (w' : World) (conn : Conn) (buf' : Bytes) : Option PyErr → Conn
+  | none => resnap cfg w' { conn with buf := if cfg.frontend = .syncUdp then [] else buf' }
+  | some _ => match cfg.frontend with
     | .syncTcp | .aioTcp | .twistedTcp => { buf := [], running := false }
-    | .syncSerial | .aioUdp | .syncUdp | .twistedUdp => { buf := [], running := true }
+    | .syncSerial | .aioUdp | .syncUdp | .twistedUdp => resnap cfg w' { buf := [], running := true }
 
-theorem finish_reaction (f1 f2 : Frontend) (h : reaction f1 = reaction f2) : finish f1 = finish f2 := by
-  funext conn buf' esc
-  cases esc <;> cases f1 <;> cases f2 <;> simp_all [finish, reaction]
+/-- the unit list a connection filters the next read with -/
+def unitsFor (cfg : Cfg) (conn : Conn) (u : Units) : List Nat := conn.snap.getD (acceptedUnits cfg u)
 
 /-- the bytes → deliveries part of `connStep` -/
 def received (cfg : Cfg) (conn : Conn) (u : Units) (chunk : Bytes) : List (Ev Req) × Bytes :=
-  if cfg.framer = .tls then tlsFeed decServer (acceptedUnits cfg u) u.single conn.buf chunk
-  else feed (stepFor cfg.framer) decServer (acceptedUnits cfg u) u.single conn.buf chunk
+  if cfg.framer = .tls then tlsFeed decServer (unitsFor cfg conn u) u.single conn.buf chunk
+  else feed (stepFor cfg.framer) decServer (unitsFor cfg conn u) u.single conn.buf chunk
 
 theorem connStep_eq (cfg : Cfg) (conn : Conn) (w : World) (chunk : Bytes) :
     connStep cfg conn w chunk =
@@ -69,8 +68,8 @@ theorem connStep_eq (cfg : Cfg) (conn : Conn) (w : World) (chunk : Bytes) :
       else if isTwisted cfg.frontend && w.ctl.listenOnly then (conn, w, [], none)
       else
         let h := handleEvents cfg w (received cfg conn w.units chunk).1
-        (finish cfg.frontend conn (received cfg conn w.units chunk).2 h.2.2, h.1, h.2.1, none) := by
-  unfold connStep received finish
+        (finish cfg h.1 conn (received cfg conn w.units chunk).2 h.2.2, h.1, h.2.1, none) := by
+  unfold connStep received finish unitsFor
   split
   · rfl
   · split
@@ -82,45 +81,68 @@ theorem connStep_eq (cfg : Cfg) (conn : Conn) (w : World) (chunk : Bytes) :
 theorem received_common (c1 c2 : Cfg) (h1 : Common c1) (h2 : Common c2) (hf : c1.framer = c2.framer) :
     received c1 = received c2 := by
   funext conn u chunk
-  simp only [received, accepted_common c1 u h1, accepted_common c2 u h2, hf]
+  simp only [received, unitsFor, accepted_common c1 u h1, accepted_common c2 u h2, hf]
 
-/-- same initial world, same bytes on a connection, same framer, front-ends of the same kind: identical bytes
-    written, identical world, identical connection state — for EVERY byte string and every request class.
-    Instances: sync TCP ↔ asyncio TCP; sync serial ↔ asyncio UDP. -/
+theorem finish_samekind (c1 c2 : Cfg) (h1 : Common c1) (h2 : Common c2)
+    (hr : reaction c1.frontend = reaction c2.frontend)
+    (hs : readsUnitsBeforeData c1.frontend = readsUnitsBeforeData c2.frontend) : finish c1 = finish c2 := by
+  funext w' conn buf' esc
+  have hres : resnap c1 w' = resnap c2 w' := by
+    funext c; simp only [resnap, hs, accepted_common c1 w'.units h1, accepted_common c2 w'.units h2]
+  cases esc with
+  | none =>
+    simp only [finish, hres]
+    have : (c1.frontend = .syncUdp) ↔ (c2.frontend = .syncUdp) := by
+      cases h : c1.frontend <;> cases g : c2.frontend <;> simp_all [reaction]
+    by_cases hu : c1.frontend = .syncUdp
+    · simp [hu, this.1 hu]
+    · have hu2 : ¬ c2.frontend = .syncUdp := fun x => hu (this.2 x)
+      simp [hu, hu2]
+  | some e =>
+    simp only [finish, hres]
+    cases h : c1.frontend <;> cases g : c2.frontend <;> simp_all [reaction]
+
+/-- same initial world, same bytes on a connection, same framer, front-ends of the same kind (same reaction to an
+    undecodable frame, both counting messages or not, both reading the unit list before or after the data arrives):
+    identical bytes written, identical world, identical connection state — for EVERY byte string and every request
+    class.  Instance: sync TCP ↔ asyncio TCP. -/
 theorem same_kind_agree (c1 c2 : Cfg) (h1 : Common c1) (h2 : Common c2)
     (hi : c1.ignoreMissing = c2.ignoreMissing) (hf : c1.framer = c2.framer)
     (hk : isTwisted c1.frontend = isTwisted c2.frontend) (hr : reaction c1.frontend = reaction c2.frontend)
+    (hs : readsUnitsBeforeData c1.frontend = readsUnitsBeforeData c2.frontend)
     (conn : Conn) (w : World) (chunk : Bytes) :
     connStep c1 conn w chunk = connStep c2 conn w chunk := by
   have hh : handleEvents c1 = handleEvents c2 := by
     funext c evs; exact handle_samekind c1 c2 h1 h2 hi hf hk c evs
-  rw [connStep_eq, connStep_eq, received_common c1 c2 h1 h2 hf, hh, hk, finish_reaction _ _ hr]
+  rw [connStep_eq, connStep_eq, received_common c1 c2 h1 h2 hf, hh, hk, finish_samekind c1 c2 h1 h2 hr hs]
 
 theorem sync_asyncio_tcp_agree (framer : FramerKind) (ign : Bool) (conn : Conn) (w : World) (chunk : Bytes) :
     connStep ⟨framer, .syncTcp, ign, false⟩ conn w chunk = connStep ⟨framer, .aioTcp, ign, false⟩ conn w chunk :=
-  same_kind_agree ⟨framer, .syncTcp, ign, false⟩ ⟨framer, .aioTcp, ign, false⟩ (by simp [Common]) (by simp [Common]) rfl rfl rfl rfl conn w chunk
+  same_kind_agree ⟨framer, .syncTcp, ign, false⟩ ⟨framer, .aioTcp, ign, false⟩ (by simp [Common]) (by simp [Common]) rfl rfl rfl rfl rfl conn w chunk
 
 theorem same_kind_agree_history (c1 c2 : Cfg) (h1 : Common c1) (h2 : Common c2)
     (hi : c1.ignoreMissing = c2.ignoreMissing) (hf : c1.framer = c2.framer)
     (hk : isTwisted c1.frontend = isTwisted c2.frontend) (hr : reaction c1.frontend = reaction c2.frontend)
+    (hs : readsUnitsBeforeData c1.frontend = readsUnitsBeforeData c2.frontend)
     (conn : Conn) (w : World) (chunks : List Bytes) :
     serve c1 conn w chunks = serve c2 conn w chunks := by
   induction chunks generalizing conn w with
   | nil => rfl
   | cons c cs ih =>
-    simp only [serve, same_kind_agree c1 c2 h1 h2 hi hf hk hr, ih]
+    simp only [serve, same_kind_agree c1 c2 h1 h2 hi hf hk hr hs, ih]
 
 /-- … and over every interleaving of several connections sharing the world -/
 theorem same_kind_agree_schedule (c1 c2 : Cfg) (h1 : Common c1) (h2 : Common c2)
     (hi : c1.ignoreMissing = c2.ignoreMissing) (hf : c1.framer = c2.framer)
     (hk : isTwisted c1.frontend = isTwisted c2.frontend) (hr : reaction c1.frontend = reaction c2.frontend)
+    (hs : readsUnitsBeforeData c1.frontend = readsUnitsBeforeData c2.frontend)
     (conns : Nat → Conn) (w : World) (sched : List (Nat × Bytes)) :
     serveSched c1 conns w sched = serveSched c2 conns w sched := by
   induction sched generalizing conns w with
   | nil => rfl
   | cons s rest ih =>
     obtain ⟨i, c⟩ := s
-    simp only [serveSched, same_kind_agree c1 c2 h1 h2 hi hf hk hr, ih]
+    simp only [serveSched, same_kind_agree c1 c2 h1 h2 hi hf hk hr hs, ih]
 
 /-! ## (B) across kinds: simulation up to the message counters -/
 
@@ -237,42 +259,81 @@ theorem handle_sim (c1 c2 : Cfg) (h1 : Common c1) (h2 : Common c2) (hi : c1.igno
                     show (handleEvents c1 (countMessage c1 a1) rest).2.2 = (handleEvents c2 (countMessage c2 a2) rest).2.2 from
                       congrArg Prod.snd i1]
 
+/-- two connections (of two front-ends) in the same protocol state: same buffered bytes, both open or both closed,
+    and each one's unit list — whether it was read before the data arrived or not — is the current one -/
+structure CSim (c1 c2 : Cfg) (k1 k2 : Conn) (w1 w2 : World) : Prop where
+  buf : k1.buf = k2.buf
+  running : k1.running = k2.running
+  cur1 : k1.snap = none ∨ k1.snap = some (acceptedUnits c1 w1.units)
+  cur2 : k2.snap = none ∨ k2.snap = some (acceptedUnits c2 w2.units)
+
+theorem unitsFor_current (cfg : Cfg) (k : Conn) (w : World)
+    (h : k.snap = none ∨ k.snap = some (acceptedUnits cfg w.units)) : unitsFor cfg k w.units = acceptedUnits cfg w.units := by
+  unfold unitsFor
+  rcases h with h | h <;> rw [h] <;> rfl
+
+theorem received_csim (c1 c2 : Cfg) (h1 : Common c1) (h2 : Common c2) (hf : c1.framer = c2.framer)
+    (k1 k2 : Conn) (w1 w2 : World) (hs : Sim w1 w2) (hc : CSim c1 c2 k1 k2 w1 w2) (chunk : Bytes) :
+    received c1 k1 w1.units chunk = received c2 k2 w2.units chunk := by
+  unfold received
+  rw [unitsFor_current c1 k1 w1 hc.cur1, unitsFor_current c2 k2 w2 hc.cur2, accepted_common c1 _ h1,
+    accepted_common c2 _ h2, hs.units, hc.buf, hf]
+
+theorem finish_current (cfg : Cfg) (w' : World) (k : Conn) (buf' : Bytes) (esc : Option PyErr) :
+    (finish cfg w' k buf' esc).snap = none ∨ (finish cfg w' k buf' esc).snap = some (acceptedUnits cfg w'.units) := by
+  cases esc with
+  | none => simp only [finish, resnap]; split <;> simp
+  | some e => cases hfe : cfg.frontend <;> simp [finish, hfe, resnap, readsUnitsBeforeData]
+
+theorem finish_buf_running (c1 c2 : Cfg) (hr : reaction c1.frontend = reaction c2.frontend)
+    (w1 w2 : World) (k1 k2 : Conn) (hb : k1.buf = k2.buf) (hrn : k1.running = k2.running) (buf' : Bytes) (esc : Option PyErr) :
+    (finish c1 w1 k1 buf' esc).buf = (finish c2 w2 k2 buf' esc).buf ∧
+    (finish c1 w1 k1 buf' esc).running = (finish c2 w2 k2 buf' esc).running := by
+  cases esc with
+  | none =>
+    have : (c1.frontend = .syncUdp) ↔ (c2.frontend = .syncUdp) := by
+      cases h : c1.frontend <;> cases g : c2.frontend <;> simp_all [reaction]
+    by_cases hu : c1.frontend = .syncUdp
+    · simp [finish, resnap, hu, this.1 hu, hrn]
+    · have hu2 : ¬ c2.frontend = .syncUdp := fun x => hu (this.2 x)
+      simp [finish, resnap, hu, hu2, hrn]
+  | some e => cases h : c1.frontend <;> cases g : c2.frontend <;> simp_all [finish, resnap, reaction]
+
 /-- ALL front-ends: same datastore and identity, same bytes on a connection, same framer — as long as the requests
     received are data-access or identification requests, every pair of front-ends writes byte-identical responses
-    and leaves the same datastore (the worlds stay related), and connections of front-ends with the same reaction
-    stay identical too -/
+    and leaves the same datastore (the worlds stay related); the two connections stay in the same protocol state
+    when the front-ends react alike to undecodable data -/
 theorem all_frontends_agree (c1 c2 : Cfg) (h1 : Common c1) (h2 : Common c2)
     (hi : c1.ignoreMissing = c2.ignoreMissing) (hf : c1.framer = c2.framer)
-    (conn : Conn) (w1 w2 : World) (hs : Sim w1 w2) (chunk : Bytes)
-    (ha : AllSupported (received c1 conn w1.units chunk).1) :
-    (connStep c1 conn w1 chunk).2.2 = (connStep c2 conn w2 chunk).2.2 ∧
-    Sim (connStep c1 conn w1 chunk).2.1 (connStep c2 conn w2 chunk).2.1 ∧
-    (reaction c1.frontend = reaction c2.frontend → (connStep c1 conn w1 chunk).1 = (connStep c2 conn w2 chunk).1) := by
-  rw [connStep_eq, connStep_eq, ← received_common c1 c2 h1 h2 hf, ← hs.units]
+    (k1 k2 : Conn) (w1 w2 : World) (hs : Sim w1 w2) (hc : CSim c1 c2 k1 k2 w1 w2) (chunk : Bytes)
+    (ha : AllSupported (received c1 k1 w1.units chunk).1) :
+    (connStep c1 k1 w1 chunk).2.2 = (connStep c2 k2 w2 chunk).2.2 ∧
+    Sim (connStep c1 k1 w1 chunk).2.1 (connStep c2 k2 w2 chunk).2.1 ∧
+    (reaction c1.frontend = reaction c2.frontend →
+      CSim c1 c2 (connStep c1 k1 w1 chunk).1 (connStep c2 k2 w2 chunk).1 (connStep c1 k1 w1 chunk).2.1 (connStep c2 k2 w2 chunk).2.1) := by
+  have hrec := received_csim c1 c2 h1 h2 hf k1 k2 w1 w2 hs hc chunk
+  rw [connStep_eq, connStep_eq, ← hrec, ← hc.running]
   simp only [hs.l1, hs.l2, Bool.and_false, Bool.false_eq_true, if_false]
   split
-  · exact ⟨rfl, hs, fun _ => rfl⟩
+  · exact ⟨rfl, hs, fun _ => hc⟩
   · obtain ⟨e1, e2⟩ := handle_sim c1 c2 h1 h2 hi hf w1 w2 hs _ ha
+    have e1a : (handleEvents c1 w1 (received c1 k1 w1.units chunk).1).2.1 =
+        (handleEvents c2 w2 (received c1 k1 w1.units chunk).1).2.1 := congrArg Prod.fst e1
+    have e1b : (handleEvents c1 w1 (received c1 k1 w1.units chunk).1).2.2 =
+        (handleEvents c2 w2 (received c1 k1 w1.units chunk).1).2.2 := congrArg Prod.snd e1
     refine ⟨?_, e2, ?_⟩
-    · simp only []
-      rw [show (handleEvents c1 w1 (received c1 conn w1.units chunk).1).2.1 = _ from congrArg Prod.fst e1]
+    · simp only []; rw [e1a]
     · intro hr
       simp only []
-      rw [finish_reaction _ _ hr,
-        show (handleEvents c1 w1 (received c1 conn w1.units chunk).1).2.2 = _ from congrArg Prod.snd e1]
+      rw [e1b]
+      obtain ⟨fb, fr⟩ := finish_buf_running c1 c2 hr
+        (handleEvents c1 w1 (received c1 k1 w1.units chunk).1).1 (handleEvents c2 w2 (received c1 k1 w1.units chunk).1).1
+        k1 k2 hc.buf hc.running (received c1 k1 w1.units chunk).2 (handleEvents c2 w2 (received c1 k1 w1.units chunk).1).2.2
+      exact ⟨fb, fr, finish_current _ _ _ _ _, finish_current _ _ _ _ _⟩
 
-/-- the three TCP front-ends (sync threaded, asyncio, Twisted), one step -/
-theorem stream_frontends_agree (c1 c2 : Cfg) (h1 : Common c1) (h2 : Common c2)
-    (hi : c1.ignoreMissing = c2.ignoreMissing) (hf : c1.framer = c2.framer)
-    (t1 : c1.frontend = .syncTcp ∨ c1.frontend = .aioTcp ∨ c1.frontend = .twistedTcp)
-    (t2 : c2.frontend = .syncTcp ∨ c2.frontend = .aioTcp ∨ c2.frontend = .twistedTcp)
-    (conn : Conn) (w1 w2 : World) (hs : Sim w1 w2) (chunk : Bytes)
-    (ha : AllSupported (received c1 conn w1.units chunk).1) :
-    (connStep c1 conn w1 chunk).2.2 = (connStep c2 conn w2 chunk).2.2 ∧
-    Sim (connStep c1 conn w1 chunk).2.1 (connStep c2 conn w2 chunk).2.1 ∧
-    (connStep c1 conn w1 chunk).1 = (connStep c2 conn w2 chunk).1 := by
-  obtain ⟨a, b, c⟩ := all_frontends_agree c1 c2 h1 h2 hi hf conn w1 w2 hs chunk ha
-  refine ⟨a, b, c ?_⟩
+theorem tcp_reaction (f1 f2 : Frontend)
+    (t1 : f1 = .syncTcp ∨ f1 = .aioTcp ∨ f1 = .twistedTcp) (t2 : f2 = .syncTcp ∨ f2 = .aioTcp ∨ f2 = .twistedTcp) :
+    reaction f1 = reaction f2 := by
   rcases t1 with h | h | h <;> rcases t2 with g | g | g <;> rw [h, g] <;> rfl
 
 /-- chunk histories on which only supported requests are ever delivered (defined along the run of `c1`) -/
@@ -282,27 +343,32 @@ def HistorySupported (c1 : Cfg) : Conn → World → List Bytes → Prop
     AllSupported (received c1 conn w.units c).1 ∧
     HistorySupported c1 (connStep c1 conn w c).1 (connStep c1 conn w c).2.1 cs
 
-/-- … over whole chunk histories: the same bytes written at every step, related worlds at the end -/
+/-- the three TCP front-ends (sync threaded, asyncio, Twisted) over whole chunk histories: the same bytes written at
+    every step, related worlds (same datastore) and connections in the same protocol state at the end -/
 theorem stream_frontends_agree_history (c1 c2 : Cfg) (h1 : Common c1) (h2 : Common c2)
     (hi : c1.ignoreMissing = c2.ignoreMissing) (hf : c1.framer = c2.framer)
     (t1 : c1.frontend = .syncTcp ∨ c1.frontend = .aioTcp ∨ c1.frontend = .twistedTcp)
     (t2 : c2.frontend = .syncTcp ∨ c2.frontend = .aioTcp ∨ c2.frontend = .twistedTcp)
-    (conn : Conn) (w1 w2 : World) (hs : Sim w1 w2) (chunks : List Bytes) (ha : HistorySupported c1 conn w1 chunks) :
-    (serve c1 conn w1 chunks).2.2 = (serve c2 conn w2 chunks).2.2 ∧
-    Sim (serve c1 conn w1 chunks).2.1 (serve c2 conn w2 chunks).2.1 := by
-  induction chunks generalizing conn w1 w2 with
+    (k1 k2 : Conn) (w1 w2 : World) (hs : Sim w1 w2) (hc : CSim c1 c2 k1 k2 w1 w2) (chunks : List Bytes)
+    (ha : HistorySupported c1 k1 w1 chunks) :
+    (serve c1 k1 w1 chunks).2.2 = (serve c2 k2 w2 chunks).2.2 ∧
+    Sim (serve c1 k1 w1 chunks).2.1 (serve c2 k2 w2 chunks).2.1 := by
+  induction chunks generalizing k1 k2 w1 w2 with
   | nil => exact ⟨rfl, hs⟩
   | cons c cs ih =>
-    obtain ⟨hc, hrest⟩ := ha
-    obtain ⟨a, b, d⟩ := stream_frontends_agree c1 c2 h1 h2 hi hf t1 t2 conn w1 w2 hs c hc
-    obtain ⟨i1, i2⟩ := ih (connStep c1 conn w1 c).1 (connStep c1 conn w1 c).2.1 (connStep c2 conn w2 c).2.1 b hrest
+    obtain ⟨hcs, hrest⟩ := ha
+    obtain ⟨a, b, d⟩ := all_frontends_agree c1 c2 h1 h2 hi hf k1 k2 w1 w2 hs hc c hcs
+    obtain ⟨i1, i2⟩ := ih _ _ _ _ b (d (tcp_reaction _ _ t1 t2)) hrest
     simp only [serve]
-    rw [← d]
     refine ⟨?_, i2⟩
-    rw [show (connStep c1 conn w1 c).2.2.1 = (connStep c2 conn w2 c).2.2.1 from congrArg Prod.fst a,
-        show (connStep c1 conn w1 c).2.2.2 = (connStep c2 conn w2 c).2.2.2 from congrArg Prod.snd a,
-        show (serve c1 (connStep c1 conn w1 c).1 (connStep c1 conn w1 c).2.1 cs).2.2.1 = _ from congrArg Prod.fst i1,
-        show (serve c1 (connStep c1 conn w1 c).1 (connStep c1 conn w1 c).2.1 cs).2.2.2 = _ from congrArg Prod.snd i1]
+    rw [show (connStep c1 k1 w1 c).2.2.1 = (connStep c2 k2 w2 c).2.2.1 from congrArg Prod.fst a,
+        show (connStep c1 k1 w1 c).2.2.2 = (connStep c2 k2 w2 c).2.2.2 from congrArg Prod.snd a,
+        show (serve c1 (connStep c1 k1 w1 c).1 (connStep c1 k1 w1 c).2.1 cs).2.2.1 = _ from congrArg Prod.fst i1,
+        show (serve c1 (connStep c1 k1 w1 c).1 (connStep c1 k1 w1 c).2.1 cs).2.2.2 = _ from congrArg Prod.snd i1]
+
+/-- freshly accepted connections of any two front-ends are in the same protocol state -/
+theorem openConn_csim (c1 c2 : Cfg) (w1 w2 : World) : CSim c1 c2 (openConn c1 w1) (openConn c2 w2) w1 w2 := by
+  refine ⟨rfl, rfl, ?_, ?_⟩ <;> (unfold openConn resnap; split <;> simp)
 
 /-- each connection's framing state is private: what a connection receives and decodes does not depend on the
     contents of the datastore, only on which units are hosted — so interleaving other connections' traffic
@@ -310,7 +376,7 @@ theorem stream_frontends_agree_history (c1 c2 : Cfg) (h1 : Common c1) (h2 : Comm
 theorem framing_independent_of_store (cfg : Cfg) (conn : Conn) (ctx ctx' : Units) (chunk : Bytes)
     (hh : hosted ctx = hosted ctx') (hs : ctx.single = ctx'.single) :
     received cfg conn ctx chunk = received cfg conn ctx' chunk := by
-  simp only [received, acceptedUnits, hh, hs]
+  simp only [received, unitsFor, acceptedUnits, hh, hs]
 
 /-- the callback never changes the single/multi mode of the server context -/
 theorem mode_invariant (cfg : Cfg) (w : World) (r : Req) (uid : Nat) :
